@@ -174,6 +174,27 @@ package forwarder
 //@   ensures[C08] err == nil && len(msg.CounterpartyIds) > 0 ==> ks_i32 == old(ks_i32) && forall j int :: 0 <= j && j < len(msg.CounterpartyIds) ==> !ccPaused(s.Forwarder, protoByName(msg.ProtocolId), msg.CounterpartyIds[j])
 
 // Queries report the current sets.
+// The listing queries report exactly the current sets (C08): the paused protocols are the enumeration of the stored
+// set, unaltered; the paused counterparties of a protocol are what the SDK paginator returns for the stored pair set,
+// restricted to exactly the requested protocol, with the client's page request (ghosts of specs/31-pagination.spec).
+//@ func (s queryServer) PausedProtocols(ctx, req) (resp, err)
+//@   requires[inv] s.Forwarder != nil && storedProtocolsOK(s.Forwarder)
+//@   ensures[C08] err == nil ==> resp != nil && len(resp.ProtocolIds) == enumLenI32(pset(s.Forwarder)) && forall j int trigger(resp.ProtocolIds[j]) :: 0 <= j && j < len(resp.ProtocolIds) ==> resp.ProtocolIds[j] == enumAtI32(pset(s.Forwarder), j)
+//@   ensures[C08] ks_i32 == old(ks_i32)
+
+//@ func (f *Forwarder) GetPaginatedPausedCrossChains(ctx, protocolID, pagination) (counterparties, pageRes, err)
+//@   requires[inv] f != nil
+//@   modifies pg_n, pg_coll, pg_req, pg_res, pg_page, opt_n, opt_prefix
+//@   ensures[C08] pg_n == old(pg_n) + 1 && opt_n == old(opt_n) + 1 && pg_coll == f.pausedCrossChains && pg_req == pagination && opt_prefix == protocolID
+//@   ensures[C08] err == nil ==> counterparties == pg_res && pageRes == pg_page
+
+//@ func (s queryServer) PausedCrossChains(ctx, req) (resp, err)
+//@   requires[inv] s.Forwarder != nil
+//@   modifies pg_n, pg_coll, pg_req, pg_res, pg_page, opt_n, opt_prefix
+//@   ensures[C08] err == nil ==> req != nil && pg_n == old(pg_n) + 1 && opt_n == old(opt_n) + 1 && pg_coll == s.Forwarder.pausedCrossChains &&
+//@                opt_prefix == protoByName(req.ProtocolId) && protoNameOK(req.ProtocolId) && pg_req == req.Pagination &&
+//@                resp != nil && resp.CounterpartyIds == pg_res && resp.Pagination == pg_page
+
 //@ func (s queryServer) IsProtocolPaused(ctx, req) (resp, err)
 //@   requires[base] s.Forwarder != nil
 //@   ensures[C08] err == nil ==> resp != nil && req != nil && resp.IsPaused == protoPaused(s.Forwarder, protoByName(req.ProtocolId))
@@ -206,10 +227,10 @@ package forwarder
 //@   requires[inv] f != nil && storedProtocolsOK(f)
 //@   ensures[C17] forall j int trigger(ids[j]) :: 0 <= j && j < len(ids) ==> okProto(ids[j])
 //@   ensures[C17] forall i int, j int trigger(ids[i], ids[j]) :: 0 <= i && i < j && j < len(ids) ==> ids[i] != ids[j]
-//@   walk 0 invariant[C17] len(paused) == widx && forall j int :: 0 <= j && j < widx ==> paused[j] == enumAtI32(pset(f), j)
-//@   ensures[C17] err == nil ==> len(ids) == enumLenI32(pset(f)) && forall j int trigger(ids[j]) :: 0 <= j && j < len(ids) ==> ids[j] == enumAtI32(pset(f), j)
+//@   walk 0 invariant[C17,C08] len(paused) == widx && forall j int :: 0 <= j && j < widx ==> paused[j] == enumAtI32(pset(f), j)
+//@   ensures[C17,C08] err == nil ==> len(ids) == enumLenI32(pset(f)) && forall j int trigger(ids[j]) :: 0 <= j && j < len(ids) ==> ids[j] == enumAtI32(pset(f), j)
 //@   ensures[C17] err == nil && enumFactsI32(pset(f))       // the callback never fails, Walk (A-COLL-OK) neither; enumeration facts handed on (A-COLL-ENUM)
-//@   ensures[C17] ks_i32 == old(ks_i32)
+//@   ensures[C17,C08] ks_i32 == old(ks_i32)
 
 //@ macro cset(f) = ks_pair[f.pausedCrossChains]
 //@ func (f *Forwarder) GetAllPausedCrossChainIDs(ctx) (ids, err)
